@@ -13,6 +13,7 @@ import (
 	"encoding/hex"
 	"encoding/json"
 	"fmt"
+	"net"
 	"sort"
 	"strings"
 	"sync"
@@ -24,6 +25,7 @@ import (
 
 	"github.com/enbility/ship-go/api"
 	"github.com/enbility/ship-go/mdns"
+	"github.com/enbility/zeroconf/v2"
 	"verifharness/core"
 	"verifharness/mdnssim"
 )
@@ -43,9 +45,18 @@ type ZCOp struct {
 	WaitMs int    `json:"waitMs"`
 }
 
+// ProxyCfg: a foreign device on the network, announced by the harness itself through the zeroconf
+// library (RegisterProxy): any addresses, any TXT.
+type ProxyCfg struct {
+	IPs     []string `json:"ips"`
+	Invalid string   `json:"invalid,omitempty"` // "", missing:<key>, txtvers, register
+	Brand   string   `json:"brand"`
+}
+
 type ZCScript struct {
-	Nodes []NodeCfg `json:"nodes"`
-	Ops   []ZCOp    `json:"ops"`
+	Nodes   []NodeCfg  `json:"nodes"`
+	Proxies []ProxyCfg `json:"proxies,omitempty"`
+	Ops     []ZCOp     `json:"ops"` // K "withdrawProxy": I is the proxy index
 }
 
 type sink struct {
@@ -89,6 +100,7 @@ type node struct {
 	sink      *sink
 	announced bool
 	running   bool
+	lastAnn   time.Time
 }
 
 // runZC executes the script; returns key "", a violation key, "inconclusive" or "harness".
@@ -115,18 +127,73 @@ func runZC(sc ZCScript) (key, msg string) {
 		if err := n.mgr.Start(n.sink); err != nil {
 			return "harness", "start: " + err.Error()
 		}
-		n.running, n.announced = true, true
+		n.running, n.announced, n.lastAnn = true, true, time.Now()
 		nodes = append(nodes, n)
 	}
+	type proxy struct {
+		ski       string
+		srv       *zeroconf.Server
+		announced bool
+	}
+	var proxies []*proxy
+	defer func() {
+		for _, p := range proxies {
+			if p.announced {
+				p.srv.Shutdown()
+			}
+		}
+	}()
+	for j, pc := range sc.Proxies {
+		p := &proxy{ski: fmt.Sprintf("%s%08x%018xff", procTag, c, j)}
+		txt := map[string]string{"txtvers": "1", "path": "/ship/", "id": fmt.Sprintf("proxy-%d", j), "ski": p.ski, "brand": pc.Brand, "model": "m", "type": "t", "register": "false"}
+		switch {
+		case strings.HasPrefix(pc.Invalid, "missing:"):
+			delete(txt, strings.TrimPrefix(pc.Invalid, "missing:"))
+		case pc.Invalid == "txtvers":
+			txt["txtvers"] = "2"
+		case pc.Invalid == "register":
+			txt["register"] = "yes"
+		}
+		var items []string
+		for _, k := range []string{"txtvers", "path", "id", "ski", "brand", "model", "type", "register"} {
+			if v, ok := txt[k]; ok {
+				items = append(items, k+"="+v)
+			}
+		}
+		srv, err := zeroconf.RegisterProxy(fmt.Sprintf("p%s-%d-%d", procTag, c, j), "_ship._tcp", "local.", 5000+j, fmt.Sprintf("ph%s-%d-%d", procTag, c, j), pc.IPs, items, nil, zeroconf.TTL(120))
+		if err != nil {
+			return "harness", "proxy: " + err.Error()
+		}
+		p.srv, p.announced = srv, true
+		proxies = append(proxies, p)
+	}
 	for _, op := range sc.Ops {
+		if op.K == "withdrawProxy" {
+			if op.I >= 0 && op.I < len(proxies) && proxies[op.I].announced {
+				proxies[op.I].srv.Shutdown()
+				proxies[op.I].announced = false
+			}
+			time.Sleep(time.Duration(op.WaitMs) * time.Millisecond)
+			continue
+		}
 		if op.I < 0 || op.I >= len(nodes) {
 			continue
 		}
 		n := nodes[op.I]
+		// mDNS needs its time: a service that is announced again within about two seconds of its previous
+		// announcement can be overtaken by a late record of the old registration at the readers (seen
+		// about 1 in 15 times). Announcements of one service are spaced by 2.5 s.
+		spaced := func() {
+			if d := 2500*time.Millisecond - time.Since(n.lastAnn); d > 0 {
+				time.Sleep(d)
+			}
+			n.lastAnn = time.Now()
+		}
 		if n.running {
 			switch op.K {
 			case "announce":
 				if !n.announced { // announcing twice without a withdrawal in between is not what the hub does
+					spaced()
 					_ = n.mgr.AnnounceMdnsEntry()
 					n.announced = true
 				}
@@ -134,6 +201,9 @@ func runZC(sc ZCScript) (key, msg string) {
 				n.mgr.UnannounceMdnsEntry()
 				n.announced = false
 			case "auto":
+				if n.announced {
+					spaced()
+				}
 				n.mgr.SetAutoAccept(op.B)
 				n.twin.SetAutoAccept(op.B)
 			case "shutdown":
@@ -201,11 +271,49 @@ func runZC(sc ZCScript) (key, msg string) {
 					seen[ip.String()] = true
 				}
 			}
+			// foreign devices: known exactly if announced with valid mandatory TXT data, with the usable ones of their addresses
+			for k, px := range proxies {
+				e := view[px.ski]
+				pc := sc.Proxies[k]
+				if !px.announced || pc.Invalid != "" {
+					if e != nil {
+						return "C17/zeroconf-foreign-service-known", fmt.Sprintf("node %d knows the foreign service %d (announced: %v, TXT defect: %q)", j, k, px.announced, pc.Invalid)
+					}
+					continue
+				}
+				if e == nil {
+					return "C17/zeroconf-foreign-service-missing", fmt.Sprintf("node %d does not know the foreign service %d (valid TXT, addresses %v)", j, k, pc.IPs)
+				}
+				want := map[string]bool{}
+				for _, a := range pc.IPs {
+					if ip := net.ParseIP(a); ip != nil && !(ip.To4() == nil && ip.IsLinkLocalUnicast()) {
+						want[ip.String()] = true
+					}
+				}
+				got := map[string]bool{}
+				for _, ip := range e.Addresses {
+					if got[ip.String()] {
+						return "C17/zeroconf-duplicate-address", fmt.Sprintf("node %d knows the foreign service %d with the address %v twice", j, k, ip)
+					}
+					got[ip.String()] = true
+				}
+				if len(got) != len(want) {
+					return "C17/zeroconf-foreign-addresses", fmt.Sprintf("node %d knows the foreign service %d with the addresses %v, the usable announced ones are %v", j, k, e.Addresses, pc.IPs)
+				}
+				for a := range want {
+					if !got[a] {
+						return "C17/zeroconf-foreign-addresses", fmt.Sprintf("node %d knows the foreign service %d with the addresses %v, the usable announced ones are %v", j, k, e.Addresses, pc.IPs)
+					}
+				}
+				if e.Brand != pc.Brand {
+					return "C16/zeroconf-readback", fmt.Sprintf("node %d reads brand %q for the foreign service %d, announced is %q", j, e.Brand, k, pc.Brand)
+				}
+			}
 			// the last report delivered shows the same set (restricted to this case's services)
 			nj.sink.mu.Lock()
 			var got []string
 			for ski := range nj.sink.last {
-				if mine[ski] != nil {
+				if mine[ski] != nil || strings.HasPrefix(ski, fmt.Sprintf("%s%08x", procTag, c)) {
 					got = append(got, ski)
 				}
 			}
@@ -215,6 +323,11 @@ func runZC(sc ZCScript) (key, msg string) {
 			for i, ni := range nodes {
 				if i != j && ni.announced {
 					want = append(want, ni.ski)
+				}
+			}
+			for k, px := range proxies {
+				if px.announced && sc.Proxies[k].Invalid == "" {
+					want = append(want, px.ski)
 				}
 			}
 			sort.Strings(got)
@@ -282,7 +395,19 @@ func genZC(t *rapid.T) ZCScript {
 		}
 		sc.Nodes = append(sc.Nodes, c)
 	}
+	for i, m := 0, rapid.SampledFrom([]int{0, 0, 1, 2}).Draw(t, "proxies"); i < m; i++ {
+		pc := ProxyCfg{Brand: rapid.StringMatching(`[A-Za-z0-9 _-]{0,12}`).Draw(t, "pbrand"),
+			IPs: rapid.SliceOfNDistinct(rapid.SampledFrom([]string{"192.0.2.77", "192.0.2.78", "2001:db8::77", "fe80::77", "fe80::78"}), 1, 4, rapid.ID[string]).Draw(t, "ips")}
+		if rapid.IntRange(0, 3).Draw(t, "pinvalid") == 0 {
+			pc.Invalid = rapid.SampledFrom([]string{"missing:txtvers", "missing:id", "missing:path", "missing:ski", "missing:register", "txtvers", "register"}).Draw(t, "invalidKind")
+		}
+		sc.Proxies = append(sc.Proxies, pc)
+	}
 	for i, m := 0, rapid.IntRange(0, 8).Draw(t, "nOps"); i < m; i++ {
+		if len(sc.Proxies) > 0 && rapid.IntRange(0, 5).Draw(t, "proxyOp") == 0 {
+			sc.Ops = append(sc.Ops, ZCOp{K: "withdrawProxy", I: rapid.IntRange(0, len(sc.Proxies)-1).Draw(t, "proxy"), WaitMs: rapid.SampledFrom([]int{0, 300, 900}).Draw(t, "pwait")})
+			continue
+		}
 		sc.Ops = append(sc.Ops, ZCOp{K: rapid.SampledFrom([]string{"unannounce", "unannounce", "announce", "announce", "auto", "auto", "shutdown"}).Draw(t, "op"),
 			I: rapid.IntRange(0, n-1).Draw(t, "node"), B: rapid.Bool().Draw(t, "b"), WaitMs: rapid.SampledFrom([]int{0, 50, 300, 900, 1600}).Draw(t, "wait")})
 	}
@@ -341,6 +466,7 @@ func runProperty(t *testing.T, prop string, want func(key string) bool) {
 				}
 				if rep < need {
 					st.AddForeign("unreproduced:" + keys[i])
+					st.Note = "unreproduced: " + msgs[i]
 					continue
 				}
 			}
